@@ -190,22 +190,29 @@ class Inliner:
 
     def stmt(self, s, stack, depth):
         # recurse into compound statements first
+        guarded = isinstance(s, (ast.Try, ast.With, ast.AsyncWith))  # an exception raised inside can be observed by the caller
+        if guarded:
+            self.try_depth = getattr(self, 'try_depth', 0) + 1
         for fld in ('body', 'orelse', 'finalbody'):
             if isinstance(getattr(s, fld, None), list) and not isinstance(s, (ast.FunctionDef, ast.AsyncFunctionDef, ast.ClassDef)):
                 setattr(s, fld, self.block(getattr(s, fld), stack, depth))
         if isinstance(s, ast.Try):
             for h in s.handlers:
                 h.body = self.block(h.body, stack, depth)
+        if guarded:
+            self.try_depth -= 1
         # a multi-statement helper called in an `if` test, or as the only argument of a call statement, is hoisted into a
         # temporary first:  if h(x): ...  ==>  _t = h(x); if _t: ...     acc.extend(h(x))  ==>  _t = h(x); acc.extend(_t)
-        if depth > 0 and self.hoist:
+        if depth > 0:
             hoist = None
             if isinstance(s, ast.If):
                 t = s.test
                 inner = t.operand if isinstance(t, ast.UnaryOp) and isinstance(t.op, ast.Not) else t
-                if isinstance(inner, ast.Call) and self._multi(inner, stack):
+                # without self.hoist (program-wide dissolution) only helpers that run straight to one trailing return are
+                # taken out of a test; guard-style predicates (several returns) stay functions
+                if isinstance(inner, ast.Call) and self._multi(inner, stack) and (self.hoist or self._straight(inner, stack)):
                     hoist = ('test', inner)
-            elif isinstance(s, ast.Expr) and isinstance(s.value, ast.Call) and len(s.value.args) == 1 and not s.value.keywords:
+            elif self.hoist and isinstance(s, ast.Expr) and isinstance(s.value, ast.Call) and len(s.value.args) == 1 and not s.value.keywords:
                 a0 = s.value.args[0]
                 if isinstance(a0, ast.Call) and self._multi(a0, stack) and not self._multi(s.value, stack):
                     hoist = ('arg', a0)
@@ -223,6 +230,23 @@ class Inliner:
                     s.value.args[0] = ref
                 ast.fix_missing_locations(asg)
                 return self.stmt(asg, stack, depth) + [s]
+        # a multi-statement helper whose call is the first thing a return / assignment / call statement evaluates is
+        # hoisted into a temporary (`return (r, h(x))` -> `_t = h(x); return (r, _t)`), then spliced as a statement
+        if depth > 0 and isinstance(s, (ast.Return, ast.Assign, ast.Expr)) and s.value is not None:
+            inner = next((c for c in ast.walk(s.value) if c is not s.value and isinstance(c, ast.Call) and self._multi(c, stack) and _first_node(s.value, c)), None)
+            if inner is not None:
+                self.counter += 1
+                tmp = f'_inl{self.counter}_tmp'
+                asg = ast.copy_location(ast.Assign(targets=[ast.Name(id=tmp, ctx=ast.Store())], value=inner, lineno=s.lineno), s)
+                s.value = _replace_node(s.value, inner, ast.copy_location(ast.Name(id=tmp, ctx=ast.Load()), s))
+                ast.fix_missing_locations(asg)
+                first = self.stmt(asg, stack, depth)
+                # the temporary is read once, by the statement that follows: fold it back when the splice left a plain
+                # `tmp = <name>` at its end
+                if first and isinstance(first[-1], ast.Assign) and isinstance(first[-1].targets[0], ast.Name) and first[-1].targets[0].id == tmp and isinstance(first[-1].value, (ast.Name, ast.Constant)):
+                    s.value = _replace_name(s.value, tmp, first[-1].value)
+                    first = first[:-1]
+                return first + self.stmt(s, stack, depth)
         call, target, is_ret = None, None, False
         if isinstance(s, ast.Expr) and isinstance(s.value, ast.Call):
             call = s.value
@@ -251,6 +275,14 @@ class Inliner:
                         it.context_expr = self.expr(it.context_expr, stack, depth)
         return [s]
 
+    def _straight(self, call, stack):
+        g, _ = self._callee(call, stack)
+        if g is None:
+            return False
+        b = _body(g)
+        rets = [n for x in b for n in ast.walk(x) if isinstance(n, ast.Return)]
+        return len(rets) == 1 and rets[0] is b[-1]
+
     def _multi(self, call, stack):
         """call of an inlinable helper whose body is more than a single `return <expr>`"""
         g, self_expr = self._callee(call, stack)
@@ -274,11 +306,35 @@ class Inliner:
                 if not reassigned:
                     mapping[p] = a
                     continue
+                # the helper rebinds its parameter and the call assigns to the very name that was passed
+                # (`x = h(x)`, `x, y = h(x, y)`): outside any try / with of the caller nobody can see the intermediate
+                # values of x (an exception leaves the function), so the caller's x can play the parameter
+                if (
+                    isinstance(a, ast.Name)
+                    and target is not None
+                    and not getattr(self, 'try_depth', 0)
+                    and len(stack) == 1
+                    and a.id in {n.id for n in ast.walk(target) if isinstance(n, ast.Name)}
+                    and all(isinstance(n, (ast.Name, ast.Tuple, ast.List, ast.Store, ast.Load)) for n in ast.walk(target))
+                ):
+                    mapping[p] = a.id
+                    continue
+                # the helper rebinds its parameter: harmless for the caller when the argument is a plain local the
+                # caller reads nowhere else (it is dead after the call), so the caller's name can play the parameter
+                if isinstance(a, ast.Name):
+                    everywhere = sum(1 for n in ast.walk(self.func.node) if isinstance(n, ast.Name) and n.id == a.id and isinstance(n.ctx, ast.Load))
+                    here = sum(1 for n in ast.walk(s) if isinstance(n, ast.Name) and n.id == a.id and isinstance(n.ctx, ast.Load))
+                    if everywhere == here == 1:
+                        mapping[p] = a.id
+                        continue
             nm = self._fresh(g, p)
             pre.append(ast.copy_location(ast.Assign(targets=[ast.Name(id=nm, ctx=ast.Store())], value=copy.deepcopy(a), lineno=s.lineno), s))
             mapping[p] = nm
+        # names bound by an import inside the helper keep their name (the statement cannot be renamed; binding the same
+        # module name in the caller denotes the same module)
+        imported = {(a.asname or a.name).split('.')[0] for n in g.own_nodes() if isinstance(n, (ast.Import, ast.ImportFrom)) for a in n.names}
         for n in _assigned_names(g):
-            if n not in mapping:
+            if n not in mapping and n not in imported:
                 mapping[n] = self._fresh(g, n)
         body = [_Rename(dict(mapping)).visit(copy.deepcopy(x)) for x in _body(g)]
         retname = self._fresh(g, 'ret')
@@ -308,43 +364,65 @@ class Inliner:
         rets = [n for x in body for n in ast.walk(x) if isinstance(n, ast.Return)]
         straight = not rets or (len(rets) == 1 and body and rets[0] is body[-1])
         if straight:
-            tail = []
+            val = None
             if rets:
                 last = body.pop()
-                tnames = {n.id for n in ast.walk(target) if isinstance(n, ast.Name)} if target is not None else set()
-                if (
+                val = last.value
+            fresh = {v for v in mapping.values() if isinstance(v, str)}  # the helper's renamed locals
+
+            def rename_into(old, new_name):
+                """the helper local `old` becomes the caller's `new_name` (the name it is returned into)"""
+                class RN(ast.NodeTransformer):
+                    def visit_Name(r, node):
+                        if node.id == old:
+                            node.id = new_name
+                        return node
+                for x in body:
+                    RN().visit(x)
+
+            def caller_name_free(nm):
+                # the caller's name must not be read or bound by the spliced body (a parameter bound to it, say)
+                return not any(isinstance(n, ast.Name) and n.id == nm for x in body + pre for n in ast.walk(x))
+
+            tail = []
+            if target is not None:
+                if val is None:
+                    tail = [ast.Assign(targets=[target], value=ast.Constant(value=None), lineno=s.lineno)]
+                elif (
                     isinstance(target, (ast.Tuple, ast.List))
-                    and isinstance(last.value, ast.Tuple)
-                    and len(target.elts) == len(last.value.elts)
+                    and isinstance(val, ast.Tuple)
+                    and len(target.elts) == len(val.elts)
                     and all(isinstance(t, ast.Name) for t in target.elts)
-                    and all(isinstance(v, (ast.Name, ast.Constant)) for v in last.value.elts)
-                    and not any(isinstance(v, ast.Name) and v.id in tnames for v in last.value.elts)
+                    and all(isinstance(v, (ast.Name, ast.Constant)) for v in val.elts)
+                    and len({t.id for t in target.elts}) == len(target.elts)
+                    and not any(isinstance(v, ast.Name) and v.id in {t.id for t in target.elts} and v.id != t.id for t, v in zip(target.elts, val.elts))
                 ):
-                    # a, b = helper(...)  with  `return x, y`  ->  a = x; b = y   (x, y are the helper's renamed locals)
-                    body = self.block(body, stack + (g.qname,), depth - 1)
-                    out = pre + body
-                    for t, v in zip(target.elts, last.value.elts):
-                        out.append(ast.copy_location(ast.Assign(targets=[t], value=v, lineno=s.lineno), s))
-                    for n in out:
-                        ast.fix_missing_locations(n)
-                    return out
-                if uses_ret:
-                    val = last.value if last.value is not None else ast.Constant(value=None)
-                    tail = [ast.copy_location(ast.Assign(targets=[ast.Name(id=retname, ctx=ast.Store())], value=val, lineno=last.lineno), last)]
-                elif last.value is not None and not isinstance(last.value, (ast.Name, ast.Constant)):
-                    tail = [ast.copy_location(ast.Expr(value=last.value), last)]
-            elif uses_ret:
-                tail = [ast.Assign(targets=[ast.Name(id=retname, ctx=ast.Store())], value=ast.Constant(value=None), lineno=s.lineno)]
+                    # a, b = helper(...)  with  `return x, y`: x and y (renamed locals of the helper) become a and b
+                    vals = [v.id for v in val.elts if isinstance(v, ast.Name)]
+                    for t, v in zip(target.elts, val.elts):
+                        if isinstance(v, ast.Name) and v.id == t.id:
+                            continue  # the caller's own name played the parameter: already holds the value
+                        if isinstance(v, ast.Name) and v.id in fresh and vals.count(v.id) == 1 and caller_name_free(t.id):
+                            rename_into(v.id, t.id)
+                        else:
+                            tail.append(ast.Assign(targets=[t], value=v, lineno=s.lineno))
+                elif isinstance(target, ast.Name) and isinstance(val, ast.Name) and val.id == target.id:
+                    pass  # x = h(x) with the caller's x as the parameter
+                elif isinstance(target, ast.Name) and isinstance(val, ast.Name) and val.id in fresh and caller_name_free(target.id):
+                    rename_into(val.id, target.id)  # x = helper(...)  with  `return y`: y is x
+                else:
+                    tail = [ast.Assign(targets=[target], value=val, lineno=s.lineno)]
+            elif is_ret:
+                tail = [ast.Return(value=val)]
+            elif val is not None and not isinstance(val, (ast.Name, ast.Constant)):
+                tail = [ast.Expr(value=val)]
+            for n in tail:
+                ast.copy_location(n, s)
             body = self.block(body + tail, stack + (g.qname,), depth - 1)
             out = pre + body
-            if target is not None:
-                out.append(ast.copy_location(ast.Assign(targets=[target], value=ast.Name(id=retname, ctx=ast.Load()), lineno=s.lineno), s))
-            elif is_ret:
-                out.append(ast.copy_location(ast.Return(value=ast.Name(id=retname, ctx=ast.Load())), s))
             if not out:
                 out = [ast.copy_location(ast.Pass(), s)]
             for n in out:
-                ast.copy_location(n, s) if not hasattr(n, 'lineno') else None
                 ast.fix_missing_locations(n)
             return out
         try:
@@ -364,6 +442,66 @@ class Inliner:
         for n in out:
             ast.fix_missing_locations(n)
         return out
+
+
+def _pure_prefix(e):
+    while isinstance(e, ast.Attribute):
+        e = e.value
+    return isinstance(e, (ast.Name, ast.Constant))
+
+
+def _first_node(e, node):
+    """True if `node` (a sub-expression of e) is evaluated before anything of e that has an effect, unconditionally"""
+    if e is node:
+        return True
+    if isinstance(e, ast.Call):
+        if any(isinstance(a, ast.Starred) for a in e.args):
+            return False
+        parts = [e.func] + list(e.args) + [k.value for k in e.keywords]
+    elif isinstance(e, ast.Attribute):
+        parts = [e.value]
+    elif isinstance(e, ast.Subscript):
+        parts = [e.value, e.slice]
+    elif isinstance(e, ast.BinOp):
+        parts = [e.left, e.right]
+    elif isinstance(e, ast.UnaryOp):
+        parts = [e.operand]
+    elif isinstance(e, ast.Compare):
+        if len(e.ops) != 1:
+            return False
+        parts = [e.left, e.comparators[0]]
+    elif isinstance(e, (ast.Tuple, ast.List, ast.Set)):
+        parts = list(e.elts)
+    elif isinstance(e, ast.BoolOp):
+        parts = [e.values[0]]
+    elif isinstance(e, ast.IfExp):
+        parts = [e.test]
+    else:
+        return False
+    for part in parts:
+        if any(x is node for x in ast.walk(part)):
+            return _first_node(part, node)
+        if not _pure_prefix(part):
+            return False
+    return False
+
+
+def _replace_node(e, old, new):
+    class T(ast.NodeTransformer):
+        def visit(self, n):
+            if n is old:
+                return new
+            return super().visit(n)
+
+    return T().visit(e)
+
+
+def _replace_name(e, name, value):
+    class T(ast.NodeTransformer):
+        def visit_Name(self, n):
+            return copy.deepcopy(value) if n.id == name and isinstance(n.ctx, ast.Load) else n
+
+    return T().visit(e)
 
 
 class _NoInline(Exception):
